@@ -255,7 +255,12 @@ fn main() {
         "wall_s": wall,
         "violations": rep.n_violations as i64,
     });
-    let evdir = root().join("evidence");
+    // VERIF_EVIDENCE_DIR: used by the seed scripts so that runs against a deliberately broken tree never
+    // overwrite the evidence of the registered checks
+    let evdir = match std::env::var("VERIF_EVIDENCE_DIR") {
+        Ok(p) if !p.is_empty() => PathBuf::from(p),
+        _ => root().join("evidence"),
+    };
     let _ = std::fs::create_dir_all(&evdir);
     let evpath = evdir.join(format!("{}.json", id));
     if let Err(e) = std::fs::write(&evpath, serde_json::to_string_pretty(&evidence).unwrap()) {
